@@ -383,7 +383,7 @@ theorem getD_map_indexPairs [Zero α] (n : Nat) (f : Nat × Nat → α) (i j : N
 /-! ### The cofactor loop -/
 
 section Cof
-variable [Add α] [Sub α] [Mul α] [Div α] [Zero α] [One α]
+variable [Add α] [Sub α] [Mul α] [Zero α] [One α]
 
 theorem cofactorLoop_ok (minor : Nat → Nat → Outcome (Option α)) (f : Nat → Nat → α)
     (pairs : List (Nat × Nat)) (acc : List α)
@@ -663,8 +663,8 @@ theorem transposeMutSquare_any (a b : ν) (n : Nat) (data : List α) :
 
 end Names
 
-section Inv
-variable [Add α] [Sub α] [Mul α] [Div α] [Zero α] [One α] [NumOrd α]
+section CofRing
+variable [Add α] [Sub α] [Mul α] [Zero α] [One α]
 
 theorem cofactorLoop_congr (m1 m2 : Nat → Nat → Outcome (Option α)) (pairs : List (Nat × Nat))
     (acc : List α) (h : ∀ ij ∈ pairs, m1 ij.1 ij.2 = m2 ij.1 ij.2) :
@@ -696,6 +696,11 @@ theorem cofactorMatrix_ok (n : Nat) (minor : Nat → Nat → Outcome (Option α)
   rw [cofactorLoop_ok minor f _ _ (fun ij hij => h _ _ (mem_indexPairs n n ij hij).1
     (mem_indexPairs n n ij hij).2)]
   simp
+
+end CofRing
+
+section Inv
+variable [Add α] [Sub α] [Mul α] [Div α] [Zero α] [One α] [NumOrd α]
 
 /-- transposing and scaling a buffer given entry by entry -/
 theorem scaled_transposed (n : Nat) (det : α) (g : Nat × Nat → α) :
@@ -967,4 +972,151 @@ theorem inverseTensor_shape {ν : Type} [DecidableEq ν] [Inhabited ν] (names :
     cases h
 
 end T
+/-! ### Determinant and inverse depend on the input only through (rows, columns, cells) -/
+
+section ViewCongr
+variable [Add α] [Sub α] [Mul α] [Div α] [Zero α] [One α] [NumOrd α]
+
+theorem maskIdx_lt (i r n : Nat) (hr : r < n - 1) : maskIdx i 1 r < n := by
+  unfold maskIdx; split <;> omega
+
+theorem minorTensor_congr (n : Nat) (g1 g2 : Nat → Nat → α)
+    (h : ∀ r c, r < n → c < n → g1 r c = g2 r c) (hn : 2 ≤ n) (i j : Nat) (hi : i < n) (hj : j < n) :
+    minorTensor ⟨n, n, g1⟩ i j = minorTensor ⟨n, n, g2⟩ i j := by
+  rw [minorTensor_square n g1 i j hn hi hj, minorTensor_square n g2 i j hn hi hj]
+  congr 1
+  apply detView_congr
+  intro r c hr hc
+  exact h _ _ (maskIdx_lt i r n hr) (maskIdx_lt j c n hc)
+
+/-- `determinant_less_generic` sees its input only through its two lengths and the cells inside
+    them: two sources of the same size with the same cells have the same determinant. -/
+theorem detView_view_congr (v w : View α) (hr : v.rows = w.rows) (hc : v.cols = w.cols)
+    (hcell : ∀ r c, r < v.rows → c < v.cols → v.get r c = w.get r c) : detView v = detView w := by
+  obtain ⟨n, c, g⟩ := v
+  obtain ⟨n', c', g'⟩ := w
+  simp only at hr hc hcell
+  subst hr hc
+  by_cases hsq : n = c
+  · subst hsq
+    exact detView_congr n g g' hcell
+  · rw [detView_nonsquare _ hsq, detView_nonsquare _ hsq]
+
+/-- … and the same inverse (same presence, same buffer, same shape). -/
+theorem inverseTensor_congr {ν : Type} [DecidableEq ν] [Inhabited ν] (names : ν × ν) (v w : View α)
+    (hr : v.rows = w.rows) (hc : v.cols = w.cols)
+    (hcell : ∀ r c, r < v.rows → c < v.cols → v.get r c = w.get r c) :
+    inverseTensor names v = inverseTensor names w := by
+  obtain ⟨n, c, g⟩ := v
+  obtain ⟨n', c', g'⟩ := w
+  simp only at hr hc hcell
+  subst hr hc
+  by_cases hsq : n = c
+  · subst hsq
+    by_cases h1 : n = 1
+    · subst h1
+      rw [inverseTensor_one, inverseTensor_one, hcell 0 0 (by omega) (by omega)]
+    · by_cases h0 : n = 0
+      · subst h0
+        simp [inverseTensor, detView_eq]
+      · rw [inverseTensor_square' names n (by omega) g, inverseTensor_square' names n (by omega) g',
+          detModel_congr n g g' hcell,
+          cofactorMatrix_congr n (minorTensor ⟨n, n, g⟩) (minorTensor ⟨n, n, g'⟩)
+            (fun i j hi hj => minorTensor_congr n g g' hcell (by omega) i j hi hj)]
+  · rw [inverseTensor_nonsquare names _ hsq, inverseTensor_nonsquare names _ hsq]
+
+end ViewCongr
+
+/-! ### Constructed tensors and matrices: what the constructors guarantee -/
+
+section Constructed
+variable {ν : Type} [DecidableEq ν]
+
+theorem elements_pair (a b : ν) (r c : Nat) : elements [(a, r), (b, c)] = r * c := by
+  simp [elements, prod]
+
+/-- what `Tensor::from` / `try_from` accepts for a two-dimensional shape -/
+theorem tryFrom_pair_iff (a b : ν) (r c : Nat) (data : List α) (t : Tensor ν α) :
+    Tensor.tryFrom [(a, r), (b, c)] data = some t ↔
+      (a ≠ b ∧ 1 ≤ r ∧ 1 ≤ c ∧ data.length = r * c ∧
+        t = ⟨data, [(a, r), (b, c)], computeStrides [(a, r), (b, c)]⟩) := by
+  unfold Tensor.tryFrom validateDimensions
+  rw [elements_pair]
+  simp only [List.map_cons, List.map_nil, hasDuplicates, List.contains_cons, List.contains_nil,
+    Bool.or_false, List.any_cons, List.any_nil]
+  constructor
+  · intro h
+    split at h
+    · cases h
+    · rename_i hv
+      split at hv
+      · cases hv
+      · split at hv
+        · cases hv
+        · split at hv
+          · cases hv
+          · rename_i h1 h2 h3
+            simp only [Option.some.injEq] at h
+            refine ⟨?_, ?_, ?_, ?_, h.symm⟩
+            · intro e; apply h2; simp [e]
+            · rcases Nat.eq_zero_or_pos r with h0 | h0
+              · exfalso; apply h3; simp [h0]
+              · exact h0
+            · rcases Nat.eq_zero_or_pos c with h0 | h0
+              · exfalso; apply h3; simp [h0]
+              · exact h0
+            · exact Decidable.of_not_not h1
+  · rintro ⟨hne, hr, hc, hlen, rfl⟩
+    have h2 : ¬ ((b == a) = true) := by simp; exact fun e => hne e.symm
+    have hr0 : ¬ (r = 0) := by omega
+    have hc0 : ¬ (c = 0) := by omega
+    simp [hlen, h2, hr0, hc0, hne]
+
+/-- `Matrix::from_flat_row_major` establishes the matrix invariant -/
+theorem fromFlatRowMajor_inv (rows cols : Nat) (values : List α) (m : Matrix α)
+    (h : Matrix.fromFlatRowMajor rows cols values = some m) :
+    m.Inv ∧ m.rows = rows ∧ m.columns = cols ∧ m.data = values := by
+  unfold Matrix.fromFlatRowMajor at h
+  split at h
+  · rename_i hc
+    simp only [Option.some.injEq] at h
+    subst h
+    refine ⟨⟨hc.1.symm, ?_, ?_⟩, rfl, rfl, rfl⟩
+    · rcases Nat.eq_zero_or_pos rows with h0 | h0
+      · exfalso; apply hc.2; apply List.eq_nil_of_length_eq_zero; rw [← hc.1, h0, Nat.zero_mul]
+      · exact h0
+    · rcases Nat.eq_zero_or_pos cols with h0 | h0
+      · exfalso; apply hc.2; apply List.eq_nil_of_length_eq_zero; rw [← hc.1, h0, Nat.mul_zero]
+      · exact h0
+  · cases h
+
+end Constructed
+
+section Canonical
+variable [Add α] [Sub α] [Mul α] [Div α] [Zero α] [One α] [NumOrd α]
+variable {ν : Type} [DecidableEq ν] [Inhabited ν]
+
+/-- the tensor returned by `inverse_tensor` is exactly what `Tensor::from(shape, buffer)` builds
+    from the input's shape and the returned buffer: canonical row-major form -/
+theorem inverseTensor_canonical (names : ν × ν) (hne : names.1 ≠ names.2) (v : View α)
+    (h1 : 1 ≤ v.rows) (t : Tensor ν α) (h : inverseTensor names v = .ok (some t)) :
+    v.rows = v.cols ∧
+      Tensor.tryFrom [(names.1, v.rows), (names.2, v.cols)] t.data = some t := by
+  have hsq : v.rows = v.cols := by
+    rcases Nat.decEq v.rows v.cols with hne' | he
+    · rw [inverseTensor_nonsquare names v hne'] at h; cases h
+    · exact he
+  obtain ⟨hs, hst, hl⟩ := inverseTensor_shape names v t h
+  refine ⟨hsq, ?_⟩
+  rw [tryFrom_pair_iff]
+  refine ⟨hne, h1, by omega, hl, ?_⟩
+  cases t with
+  | mk d sh st =>
+    simp only at hs hst
+    subst hs
+    subst hst
+    rfl
+
+end Canonical
+
 end EasyMl.Det
